@@ -839,6 +839,9 @@ impl Gen {
           let rnd = self.rng.range(0, 2 * cap as u64) as i128 - cap;
           let c = [0, 1, -1, i64::MIN as i128, i64::MAX as i128, i64::MIN as i128 + 1, -al, -al - 1, -al + 1, cap - al,
             cap - al - 1, cap - al + 1, d - al, d - al - 1, d - al + 1, m, -m, m - al, m - al + 1, rnd,
+            // sums that only fit 64 bits and whose low 32 bits look like an ordinary offset
+            m + 1, m + 1 + d, m + 1 - al + d + 1, m + 1 + self.rng.below(cap as u64 + 1) as i128, 2 * (m + 1), (m + 1) * 3 + 7,
+            -(m + 1), -(m + 1) + cap,
             self.rng.next_u64() as i64 as i128];
           let n = self.rng.pick(&c).clamp(i64::MIN as i128, i64::MAX as i128);
           self.emit(format!("rewind cur {n}"));
@@ -878,7 +881,13 @@ impl Gen {
       while (self.ai().allocated as u64) < target && guard < 12 {
         let want = target - self.ai().allocated as u64;
         let n = want.min(self.rng.range(ps / 2, 2 * ps));
-        if self.alloc_fill(n).is_none() {
+        if self.rng.chance(25) {
+          // left as the arena hands it out: whole pages of zeros inside the allocated memory
+          let h = self.fresh_h();
+          if !self.emit(format!("alloc_bytes {h} {n}")).starts_with("r=ok") {
+            break;
+          }
+        } else if self.alloc_fill(n).is_none() {
           break;
         }
         guard += 1;
@@ -933,6 +942,36 @@ impl Gen {
     }
   }
 
+  /// one `truncate` with everything it needs before and a few telling allocations after it
+  fn trunc_once(&mut self) {
+    // `truncate` moves the memory: only this arena value learns the new address. Owned handles
+    // (they hold clones), typed handles (they cache a pointer) and the other arena values must
+    // be gone before; borrowed byte buffers re-read the pointer through the arena and stay.
+    self.release_all(false, |h| h.kind == HKind::BytesRef);
+    let ai = self.ai();
+    for c in ai.arenas.iter().skip(1) {
+      self.emit(format!("drop_arena {c}"));
+    }
+    let (al, cap, d) = (ai.allocated as u64, ai.capacity as u64, ai.data_offset as u64);
+    let c = [0, 1, d.saturating_sub(1), d, al.saturating_sub(1), al, al + 1, cap.saturating_sub(1), cap, cap + 1,
+      2 * cap, 4 * cap, self.rng.range(0, 4 * cap), self.rng.range(al, 2 * cap.max(al))];
+    let n = self.rng.pick(&c);
+    self.emit(format!("truncate {n}"));
+    // allocations that just fit / just do not fit the new capacity
+    let rem = self.ai().remaining as u64;
+    for _ in 0..self.rng.range(1, 3) {
+      let rnd = self.rng.range(0, rem + 1);
+      let n = self.rng.pick(&[rem, rem + 1, rem.saturating_sub(1), rem / 2, 1, rnd]);
+      self.alloc_fill(n);
+    }
+    // the moved memory must still honour the configured maximum alignment
+    if self.rng.chance(60) {
+      let a = (self.cfg.as_ref().map(|c| c.maxalign as u64).unwrap_or(8)).clamp(8, 64);
+      let h = self.fresh_h();
+      self.emit(format!("alloc_t {h} {a} {a}"));
+    }
+  }
+
   fn profile_trunc(&mut self) {
     let total = self.left;
     self.run_mix(total / 3, false);
@@ -941,32 +980,7 @@ impl Gen {
       if self.left == 0 || self.case.is_none() {
         break;
       }
-      // `truncate` moves the memory: only this arena value learns the new address. Owned handles
-      // (they hold clones), typed handles (they cache a pointer) and the other arena values must
-      // be gone before; borrowed byte buffers re-read the pointer through the arena and stay.
-      self.release_all(false, |h| h.kind == HKind::BytesRef);
-      let ai = self.ai();
-      for c in ai.arenas.iter().skip(1) {
-        self.emit(format!("drop_arena {c}"));
-      }
-      let (al, cap, d) = (ai.allocated as u64, ai.capacity as u64, ai.data_offset as u64);
-      let c = [0, 1, d.saturating_sub(1), d, al.saturating_sub(1), al, al + 1, cap.saturating_sub(1), cap, cap + 1,
-        2 * cap, 4 * cap, self.rng.range(0, 4 * cap), self.rng.range(al, 2 * cap.max(al))];
-      let n = self.rng.pick(&c);
-      self.emit(format!("truncate {n}"));
-      // allocations that just fit / just do not fit the new capacity
-      let rem = self.ai().remaining as u64;
-      for _ in 0..self.rng.range(1, 3) {
-        let rnd = self.rng.range(0, rem + 1);
-        let n = self.rng.pick(&[rem, rem + 1, rem.saturating_sub(1), rem / 2, 1, rnd]);
-        self.alloc_fill(n);
-      }
-      // the moved memory must still honour the configured maximum alignment
-      if self.rng.chance(60) {
-        let a = (self.cfg.as_ref().map(|c| c.maxalign as u64).unwrap_or(8)).clamp(8, 64);
-        let h = self.fresh_h();
-        self.emit(format!("alloc_t {h} {a} {a}"));
-      }
+      self.trunc_once();
       let n = (self.left / 2).max(1);
       self.run_mix(n, false);
     }
@@ -1227,6 +1241,12 @@ impl Gen {
       }
       let n = (self.left / (cuts - k + 1)).max(1);
       self.run_mix(n, false);
+      // a resized file-backed arena must still be the file (`truncate` exists on unsync arenas; `r=na` otherwise)
+      if self.rng.chance(22) && self.case.is_some() {
+        self.trunc_once();
+        let m = self.rng.range(1, 6) as usize;
+        self.run_mix(m, false);
+      }
       if !self.cut() {
         return;
       }
